@@ -1,2 +1,75 @@
 //! verification hooks for engine `typing` (cfg(xray_verif) only)
+//!
+//! Read-only views of a compilation scope: the static type the compiler assigned to a top-level
+//! binding, and the signatures of the functions a scope exports under a given name.
 #![allow(unreachable_pub, dead_code, unused_imports)]
+
+use crate::compilation_scope::{Cell, CompilationItem, OverloadWithForwardReq};
+use crate::root_compilation_scope::RootCompilationScope;
+use crate::xtype::{XFuncSpec, XType};
+
+fn spec_text<W, R, T>(scope: &RootCompilationScope<W, R, T>, spec: &XFuncSpec) -> String {
+    let interner = scope.interner.borrow();
+    let mut ret = String::new();
+    if let Some(gs) = &spec.generic_params {
+        ret.push('<');
+        for (i, g) in gs.iter().enumerate() {
+            if i > 0 {
+                ret.push_str(", ");
+            }
+            ret.push_str(interner.resolve(*g).unwrap_or("?"));
+        }
+        ret.push('>');
+    }
+    ret.push('(');
+    for (i, p) in spec.params.iter().enumerate() {
+        if i > 0 {
+            ret.push_str(", ");
+        }
+        ret.push_str(&p.type_.to_string_with_interner(&interner));
+        if !p.required {
+            ret.push('?');
+        }
+    }
+    ret.push_str(")->");
+    ret.push_str(&spec.ret.to_string_with_interner(&interner));
+    ret
+}
+
+/// The overloads visible under `name` at the top level of `scope`:
+/// `<G, ..>(P0, P1?, ..)->R` for an overload with a fixed signature, `dyn:<description>` for a
+/// dynamic (factory) overload. Empty when the name is not a function.
+pub fn signatures<W, R, T>(scope: &RootCompilationScope<W, R, T>, name: &str) -> Vec<String> {
+    let Some(id) = scope.get_identifier(name) else { return vec![] };
+    match scope.scope.get_item(&id) {
+        Some(CompilationItem::Overload(ovs)) => ovs
+            .iter()
+            .map(|(_, ov)| match ov {
+                OverloadWithForwardReq::Static { spec, .. } => spec_text(scope, spec),
+                OverloadWithForwardReq::Factory(desc, _) => format!("dyn:{desc}"),
+            })
+            .collect(),
+        _ => vec![],
+    }
+}
+
+/// Static type of a top-level name: the declared/inferred type of a variable, the signatures
+/// (joined by ` | `) of a function name, `type:<T>` for a type name, `!notfound` otherwise.
+pub fn static_type<W, R, T>(scope: &RootCompilationScope<W, R, T>, name: &str) -> String {
+    let Some(id) = scope.get_identifier(name) else { return "!notfound".to_string() };
+    if let Some(&cell_idx) = scope.scope.get_variable_cell(&id) {
+        return match &scope.scope.cells[cell_idx] {
+            Cell::Variable { t, .. } => t.to_string_with_interner(&scope.interner.borrow()),
+            Cell::Recourse => "!recourse".to_string(),
+            Cell::Capture { .. } => "!capture".to_string(),
+        };
+    }
+    match scope.scope.get_item(&id) {
+        Some(CompilationItem::Overload(_)) => signatures(scope, name).join(" | "),
+        Some(CompilationItem::Type(t)) => {
+            format!("type:{}", t.to_string_with_interner(&scope.interner.borrow()))
+        }
+        Some(CompilationItem::Value(_)) => "!value".to_string(),
+        None => "!notfound".to_string(),
+    }
+}
